@@ -147,6 +147,11 @@ func checkOne(w Witness) (law, msg string) {
 		if len(tags) != n {
 			return "reload-tags", fmt.Sprintf("loader reports %d tables, want %d", len(tags), n)
 		}
+		for i, tg := range tags {
+			if uint32(tg) != w.Tables[i].Tag {
+				return "reload-tags", fmt.Sprintf("Tables() entry %d is %#x, want %#x", i, uint32(tg), w.Tables[i].Tag)
+			}
+		}
 		for _, t := range w.Tables {
 			var raw []byte
 			if pv, where := vrun.Catch(func() { raw, err = ld.RawTable(ot.Tag(t.Tag)) }); pv != nil {
@@ -157,6 +162,45 @@ func checkOne(w Witness) (law, msg string) {
 			}
 			if !bytes.Equal(raw, t.Content) {
 				return "reload-body", fmt.Sprintf("RawTable(%#x) differs from the input (%d vs %d bytes)", t.Tag, len(raw), len(t.Content))
+			}
+		}
+		// the same through one reused destination buffer (RawTableTo), longest table first so
+		// that the buffer is longer than most tables read into it, then in directory order
+		order := make([]int, len(w.Tables))
+		for i := range order {
+			order[i] = i
+		}
+		sort.SliceStable(order, func(a, b int) bool { return len(w.Tables[order[a]].Content) > len(w.Tables[order[b]].Content) })
+		for i := range w.Tables {
+			order = append(order, i)
+		}
+		var buf []byte
+		for _, k := range order {
+			t := w.Tables[k]
+			var raw []byte
+			if pv, where := vrun.Catch(func() { raw, err = ld.RawTableTo(ot.Tag(t.Tag), buf) }); pv != nil {
+				return "panic", fmt.Sprintf("RawTableTo panicked: %v at %s", pv, where)
+			}
+			if err != nil {
+				return "reload-table", fmt.Sprintf("RawTableTo(%#x) into a reused buffer of length %d: %v", t.Tag, len(buf), err)
+			}
+			if !bytes.Equal(raw, t.Content) {
+				return "reload-body", fmt.Sprintf("RawTableTo(%#x) into a reused buffer of length %d differs from the input (%d vs %d bytes)", t.Tag, len(buf), len(raw), len(t.Content))
+			}
+			buf = raw
+		}
+		// the tag list is the loader's own: a caller that edits the returned slice does not
+		// change what the next call returns
+		for i := range tags {
+			tags[i] = 0
+		}
+		again := ld.Tables()
+		if len(again) != n {
+			return "reload-tags", fmt.Sprintf("second Tables() reports %d tables, want %d", len(again), n)
+		}
+		for i, tg := range again {
+			if uint32(tg) != w.Tables[i].Tag {
+				return "reload-tags", fmt.Sprintf("second Tables() call, after the caller overwrote the slice the first one returned: entry %d is %#x, want %#x", i, uint32(tg), w.Tables[i].Tag)
 			}
 		}
 	}
